@@ -20,7 +20,7 @@ RULE = ("continuous and grid worlds, wrapping and not; 0-8 agents on a coarse la
 COMPONENTS = {"real": ["ECAgent.Environments.SpaceWorld.get_agents_at", "add_agent / move / move_to / remove_agent"],
               "stub": ["agents are plain ECAgent agents created by the harness"]}
 PROBES = ["axis_leeway_larger", "general_leeway_larger", "negative_leeway", "empty_answer", "coincident_agents",
-          "query_outside_world", "seam_crossing_box", "agent_on_face", "wrap_world", "moved_since_placement", "rejected_duplicate_add", "model_lifecycle_op"]
+          "query_outside_world", "seam_crossing_box", "agent_on_face", "wrap_world", "moved_since_placement", "rejected_duplicate_add", "model_lifecycle_op", "wrap_mode_switched"]
 TECHNIQUE = "deterministic simulation: positional queries inside seeded move/remove histories vs an exact geometric filter (seam-aware in wrapping worlds)"
 LEVEL_TEXT = ("Seeded search over placements, move histories and query boxes; every answer must equal, as an ordered id list, an "
               "exact geometric filter over the reference positions (distance around the seam in wrapping worlds); the query "
@@ -69,6 +69,8 @@ def generate(rng, tier):
             ops.append({"op": "remove", "k": rng.randrange(n)})
         elif r < 0.935:
             ops.append({"op": "lifecycle", "k": 0, "what": rng.choice(["step", "complete"])})
+        elif r < 0.95:
+            ops.append({"op": "flip_wrap", "k": 0})
         else:
             ops.append({"op": "add", "k": rng.randrange(n), "p": [lattice(rng, ref, ax, 0) for ax in range(3)]})
             if rng.random() < 0.5:
@@ -184,6 +186,10 @@ def execute(sc, ctx):
             ctx.expect_ok("move_to", env.move_to, a, *ref.real(p))
             pos[k] = list(p)
             moved.add(k)
+        elif kind == "flip_wrap":
+            env.wrap_env = not env.wrap_env        # a public attribute (the package's own tests reassign it)
+            ref.wrap = not ref.wrap
+            ctx.probe("wrap_mode_switched")
         elif kind == "lifecycle":
             ctx.expect_ok("lifecycle", m.complete if op["what"] == "complete" else m.execute)
             ctx.probe("model_lifecycle_op")
